@@ -570,6 +570,14 @@ func ToEntry(n Node) (e *Entry) {
 	if e := ms.getEntryCache(n); e != nil {
 		return e
 	}
+	if g, ok := n.(*Grouping); ok {
+		// A grouping that (directly or indirectly) uses itself would be
+		// expanded without end.
+		if !ms.enterGrouping(g) {
+			return newError(n, "grouping %s uses itself", g.Name)
+		}
+		defer ms.leaveGrouping(g)
+	}
 	defer func() {
 		ms.setEntryCache(n, e)
 	}()
